@@ -15,8 +15,8 @@ Driver for C13.  Abstract cases (fields):
             consumer stalling at random
   raw     text            → Parse on arbitrary text (correspondence only, never judged)
 
-modes: plain | file | gz | gz2 (gzip stream of two members).  A reply `race` / `crash` (the harness process
-died, e.g. stopped by the race detector) is a failure of the property for every case.
+modes: plain | file | gz | gz2 (gzip stream of two members).  A reply `race` / `crash` / `timeout` / `panic` (the
+harness process died, a library call never returned, the op panicked) is a failure for every case, `raw` included.
 
 junk lists (before/after/between) are encoded as items separated by `\n`: `b` = blank line,
 `c<text>` = comment line `;<text>`, `s<text>` = the whitespace-only line `<text>`.
@@ -78,16 +78,21 @@ def short (s : String) : String := String.ofList (s.toList.take 200)
 
 def sizeClass (rs : List Rec) : String :=
   let mx := rs.foldl (fun a r => max a r.seq.length) 0
-  (if rs.length ≤ 1 then "n1" else if rs.length ≤ 10 then "n10" else "n200") ++ "/" ++
+  (if rs.length ≤ 1 then "n1" else if rs.length ≤ 10 then "n<=10" else "n>10") ++ "/" ++
   (if mx = 0 then "len0" else if mx < 100 then "len<100" else if mx < 65536 then "len<64K" else "len>=64K")
 
 def trivial (rs : List Rec) : Bool := rs.all (fun r => r.seq.isEmpty)
 
-def died (out : List String) : Bool := out.head? == some "race" || out.head? == some "crash"
+/-- replies that no model predicts, for any input: the process died (race detector, crash), a library call
+never returned (`timeout`; ended by the runner or by the op's own deadline), the op panicked -/
+def died (out : List String) : Bool :=
+  out.head? == some "race" || out.head? == some "crash" || out.head? == some "timeout" || out.head? == some "panic"
 
 def judge (f out : List String) : Verdict :=
   if died out then
-    { corr := false, judge := some false, cls := "harness-died/" ++ out.headD "", detail := short (lineOf out) }
+    { corr := false, judge := some false,
+      cls := "harness-died/" ++ out.headD "" ++ (if out.head? == some "timeout" then "-" ++ (out.drop 1).headD "" else ""),
+      detail := short (lineOf out) }
   else
   match f with
   | "layout" :: mode :: finalNl :: n :: rest =>
